@@ -27,6 +27,8 @@ func (e *Enc) Run() (err error) {
 	if len(fn.Blocks) == 0 {
 		return fmt.Errorf("%s: no body", e.key)
 	}
+	e.topFn = fn
+	e.entryGuard = TTrue
 	e.findLoops()
 	e.classifyLocals()
 
@@ -240,7 +242,7 @@ func (e *Enc) execBlock(b *ssa.BasicBlock, isEntry bool) error {
 	// Note: a block may list the same predecessor twice (if c goto B else B); edge conditions are keyed by pair and or-ed.
 	var g Term
 	if isEntry {
-		g = TTrue
+		g = e.entryGuard
 	} else {
 		var conds []Term
 		var states []*State
@@ -258,7 +260,7 @@ func (e *Enc) execBlock(b *ssa.BasicBlock, isEntry bool) error {
 			e.guard[b] = TFalse
 			return nil
 		}
-		gc := e.sc.Declare(fmt.Sprintf("g%d", b.Index), SBool)
+		gc := e.sc.Declare(fmt.Sprintf("g%s%d", e.inl, b.Index), SBool)
 		e.sc.AssertDef(gc.S, Eq(gc, Or(conds...)))
 		g = gc
 		e.cur = e.mergeStates(states, conds)
@@ -621,11 +623,11 @@ func rootIndexAddr(v ssa.Value) *ssa.IndexAddr {
 
 func (e *Enc) enterLoop(li *loopInfo, phiEntry map[*ssa.Phi]Term) error {
 	b := li.header
-	invs := e.loopInvariants(li)
 	// 1. invariant holds on entry (phis = entry values)
 	for phi, v := range phiEntry {
 		e.vals[phi] = v
 	}
+	invs := e.loopInvariants(li)
 	se := e.specEnv(e.entry, e.cur, nil)
 	se.loop = li
 	for _, c := range invs {
@@ -718,11 +720,73 @@ func (e *Enc) enterLoop(li *loopInfo, phiEntry map[*ssa.Phi]Term) error {
 	return nil
 }
 
+// loopInvariants: the invariant clauses in force for loop li. The clauses of the contract are split into
+// their top-level conjuncts; a conjunct that cannot be evaluated at the loop head (it names a variable that
+// does not exist in this code: e.g. the index variable after a loop changed from index form to range form) is
+// skipped with a note instead of aborting generation: the invariant is an internal proof artifact, so a weaker
+// one is sound: if what remains is too weak, a real obligation fails. The standard bounds of the loop forms
+// the Go front end generates (range over a slice, range over an integer) are added automatically.
 func (e *Enc) loopInvariants(li *loopInfo) []Clause {
 	if e.fc == nil {
 		return nil
 	}
-	return e.fc.LoopInv[li.ordinal]
+	if cached, ok := e.loopInvCache[li]; ok {
+		return cached
+	}
+	var out []Clause
+	se := e.specEnv(e.entry, e.cur, nil)
+	se.loop = li
+	se.pure = true
+	try := func(x SExpr) bool {
+		nDecl, nAss := len(e.sc.Decls), len(e.sc.Asserts)
+		_, err := se.evalBool(x)
+		_ = nDecl
+		_ = nAss
+		return err == nil
+	}
+	var split func(x SExpr, into *[]SExpr)
+	split = func(x SExpr, into *[]SExpr) {
+		if b, ok := x.(*SBin); ok && b.Op == "&&" {
+			split(b.L, into)
+			split(b.R, into)
+			return
+		}
+		*into = append(*into, x)
+	}
+	for _, c := range e.fc.LoopInv[li.ordinal] {
+		if try(c.Expr) {
+			out = append(out, c)
+			continue
+		}
+		var parts []SExpr
+		split(c.Expr, &parts)
+		kept := 0
+		for k, pt := range parts {
+			if !try(pt) {
+				e.abstracted[fmt.Sprintf("loop %d invariant: conjunct %q skipped (it refers to names that do not exist in this code)", li.ordinal, pt.String())] = true
+				continue
+			}
+			cl := c
+			cl.Expr = pt
+			cl.Text = pt.String()
+			if c.Label != "" {
+				cl.Label = fmt.Sprintf("%s.%d", c.Label, k)
+			}
+			out = append(out, cl)
+			kept++
+		}
+	}
+	for _, txt := range []string{"-1 <= rangeindex && rangeindex < len(rangeexpr)", "0 <= rangeiter && rangeiter < rangebound"} {
+		x, err := parseSpecExpr(txt)
+		if err == nil && try(x) {
+			out = append(out, Clause{Kind: "loopinv", Label: "auto-bounds", Text: txt + " (automatic)", Expr: x, File: "(automatic)"})
+		}
+	}
+	if e.loopInvCache == nil {
+		e.loopInvCache = map[*loopInfo][]Clause{}
+	}
+	e.loopInvCache[li] = out
+	return out
 }
 
 func (e *Enc) checkBackEdge(from, header *ssa.BasicBlock) error {
